@@ -83,6 +83,12 @@ CHECKS = {
             "Sampled networks with covariance matrices of every band width and planted exclusions; enumerated malformed "
             "variants per cluster kind x algorithm; exploration.",
             "DESIGN.md §2 C10", TRUST),
+    "C20": ("relational monitor on the real binary: rank deficiencies of known kinds planted into generated networks; the "
+            "outcome expected by construction, the behaviour of the four algorithms (outcome class, adjusted point set, "
+            "results), deletion equivalence for the determinable rest and absence of non-finite numbers are checked; "
+            "trace hooks give the removed points",
+            "Sampled networks x 6 planted kinds x 4 algorithms; exploration.",
+            "DESIGN.md §2 C20", TRUST),
 }
 
 NOT_APPLICABLE = {}
